@@ -5,7 +5,7 @@ No protocol model here — net/http semantics, QPACK, gzip and the QUIC connecti
 not modelled; this file only states the expected observation.
 -/
 import Uquic.Spec.H3Mon
-import Uquic.Model.H3.Glue
+import Uquic.Model.H3.RespGlue
 
 namespace Uquic.Spec.H3Echo
 open Uquic.Spec.H3Mon
@@ -107,14 +107,14 @@ def Exch.autoContentLength (e : Exch) : Option String :=
   else if e.method == "HEAD" then some (toString e.rbLen)
   else if e.rbLen < 4096 then some (toString e.rbLen) else some "-"
 
-open Uquic.Model.H3.Glue in
+open Uquic.Model.H3.RespGlue in
 /-- the transport asked for gzip on its own (the driver never disables compression, sends no Range) -/
 def Exch.reqGzip (e : Exch) : Bool := requestedGzip false e.method e.ae false
 
 /-- the handler compresses: the exchange says so and the request carries Accept-Encoding: gzip -/
 def Exch.zipped (e : Exch) : Bool := e.gz && (e.reqGzip || e.ae)
 
-open Uquic.Model.H3.Glue in
+open Uquic.Model.H3.RespGlue in
 /-- the tail of `ReadResponse` for this exchange.  `implCl` is the Content-Length field as the client
     reports it (a witness: whether the server adds one depends on its small-response buffering); when
     the response is decompressed transparently the field is gone and the limit is not observable here -/
